@@ -115,11 +115,10 @@ func matchesWellFormed(re *regexp2.Regexp, s string, st func(string)) (detail, i
 		}
 		return false
 	}
+	// (called before wellFormed: it must not be the first to touch the accessors of the match)
 	count := func(m *regexp2.Match) {
 		matches++
-		for _, g := range m.Groups() {
-			captures += len(g.Captures)
-		}
+		captures += m.GroupCount()
 	}
 	// string chain
 	m, e := re.FindStringMatch(s)
